@@ -7,6 +7,7 @@ package util
 import (
 	"encoding/hex"
 	"regexp"
+	"strings"
 )
 
 var (
@@ -15,11 +16,8 @@ var (
 		`\s*` + Comment + `.*`, ``,
 		`(?m)^(?:[\t\s]*(?:\r?\n|\r))+`, ``,
 	})
-	regHex = map[string]*regexp.Regexp{
-		"name":    regexp.MustCompile(`name=[0-9A-F]+`),
-		"comm":    regexp.MustCompile(`comm=[0-9A-F]+`),
-		"profile": regexp.MustCompile(`profile=[0-9A-F]+`),
-	}
+	// One pattern, applied once: a decoded value is never scanned again
+	regHex = regexp.MustCompile(`(name|comm|profile)=[0-9A-F]+`)
 )
 
 type RegexReplList []RegexRepl
@@ -53,14 +51,11 @@ func (rr RegexReplList) Replace(str string) string {
 
 // DecodeHexInString decode and replace all hex value in a given string of "key=value" format.
 func DecodeHexInString(str string) string {
-	for name, re := range regHex {
-		str = re.ReplaceAllStringFunc(str, func(s string) string {
-			hexa := s[len(name)+1:]
-			bs, _ := hex.DecodeString(hexa)
-			return name + "=\"" + string(bs) + "\""
-		})
-	}
-	return str
+	return regHex.ReplaceAllStringFunc(str, func(s string) string {
+		name, hexa, _ := strings.Cut(s, "=")
+		bs, _ := hex.DecodeString(hexa)
+		return name + "=\"" + string(bs) + "\""
+	})
 }
 
 // Filter out comments and empty line from a string
